@@ -50,7 +50,7 @@ def scenario(rng, k, crash=None, git=False, dirty=False):
         steps[crash[0]]["label"] = "crashed"
     scn = {"project": proj, "steps": steps, "tag": [k, git, crash], "_real": real}
     if git:
-        scn["git"] = {"commits": 2, "dirty": dirty, "sha256": k % 8 == 5}
+        scn["git"] = {"commits": 2, "dirty": dirty, "sha256": k % 8 == 5, "nested": bool(dirty) and dirty != "staged"}
     return scn
 
 
